@@ -7,9 +7,9 @@ import gen_harness
 
 PID = "C18"
 MODEL_TARGETS = ["Proofs/Eval.vo", "Amount/F64.vo", "Amount/Dec.vo", "Gen/Catalogue.vo"]
-PROOF_TARGETS = ["Props/C18.vo", "Pinned/C18.vo", "Props/AccuracyDec.vo", "Pinned/AccuracyDec.vo"]
-PROPS = ["Props/C18.v", "Props/AccuracyDec.v"]
-COQCHK = ["QV.Props.C18", "QV.Props.AccuracyDec"]
+PROOF_TARGETS = ["Props/C18.vo", "Pinned/C18.vo", "Props/AccuracyDec.vo", "Pinned/AccuracyDec.vo", "Props/EnvelopeDec.vo", "Pinned/EnvelopeDec.vo"]
+PROPS = ["Props/C18.v", "Props/AccuracyDec.v", "Props/EnvelopeDec.v"]
+COQCHK = ["QV.Props.C18", "QV.Props.AccuracyDec", "QV.Props.EnvelopeDec"]
 TRUSTED_BASE = [
     "Coq 8.16.1 kernel (coqc); coqchk in the thorough tier",
     "translator rs2j+j2v: every kernel, template, rate and converter function is translated into the result monad; the only Panic constructors the translation emits are panic! (unit guard), Option::unwrap on None, and what the amount operations return",
@@ -19,8 +19,9 @@ TRUSTED_BASE = [
 LEVEL = ("Coq theorems (Props/C18.v): for every amount type whose + - * / are total - binary64 is (theorem) - conversion, equivalent amount, ==, partial_cmp, + - /, _fit (the unwrap is discharged: the reference unit is always "
          "eligible, and iterated for every type of the tree - computed), derived products/quotients, rate operations, table conversions and scaling by numbers return a value for ALL amounts (zero, subnormal, infinite, NaN) on every "
          "instance with reference unit; the only other panic is the documented unit guard (theorem shared with C10). Decimal configuration: theorems over the model of fpdec::Decimal (Props/AccuracyDec.v) - + and - return a value when both operands are below 1e19 in absolute value, * when the exact product is, "
-         "/ when the divisor is non-zero and the exact quotient is (DEC_totality); conversion and cross-unit comparison composed from them (DEC_C18_convert_total, DEC_C02_order). The full envelope statement of the property (all kernels, "
-         "derived and rate operations, 1e-15..1e17) is judged on the implementation by the exact-rational envelope test (testing): partial for the decimal configuration.")
+         "/ when the divisor is non-zero and the exact quotient is (DEC_totality); and the property's own envelope for the kernels of a quantity with reference unit (Props/EnvelopeDec.v): with the ratio of the two unit scales, the operands, the right operand expressed in the left operand's unit "
+         "and the quotient between 1e-15 and 1e17, conversion, + - / and == / partial_cmp across units return a value (DEC_C18_envelope_convert / add_sub / div / cmp; a converted divisor keeps at least 99.9 % of its magnitude, so it stays non-zero). "
+         "Derived and rate operations and formatting inside the envelope are judged on the implementation by the exact-rational envelope test (testing): partial for the decimal configuration.")
 LEVEL_NOTE = "Trusted: Coq kernel, translator rs2j+j2v (completeness of the panic sources it models), Amount/F64.v; decimal half: the fpdec model (Amount/DecModel.v) + differential testing; the decimal theorems use the stdlib real-number axioms (values are stated over R)."
 ASSUMPTIONS = [
     "Rust code translated without a Panic constructor cannot panic (no indexing, no integer arithmetic, no unwrap other than the modelled one in the translated regions)",
